@@ -12,6 +12,7 @@ def step (line : String) : String :=
   | "matmul" :: rest => runMatmul (parseKV rest)
   | "tmatmul" :: rest => runTmatmul (parseKV rest)
   | "einsum" :: rest => runEinsum (parseKV rest)
+  | "einsumn" :: rest => runEinsumN (parseKV rest)
   | _ => "bad-op"
 
 partial def loop (h : IO.FS.Stream) (out : IO.FS.Stream) : IO Unit := do
